@@ -74,15 +74,37 @@ func (l *lockedBuf) String() string {
 
 func newInterp(out *lockedBuf, sc *sched) (*interp.Interpreter, error) {
 	i := interp.New(interp.Options{Stdout: out, Stderr: out})
-	if err := i.Use(stdlib.Symbols); err != nil {
+	if err := i.Use(symbols()); err != nil {
 		return nil, err
 	}
 	if err := i.Use(interp.Exports{"verif/verif": {
 		"Mark": reflect.ValueOf(func(id int) { sc.mark(id) }),
+		"Gate": reflect.ValueOf(sc.gate),
+		"K":    reflect.ValueOf(int(sc.parties)),
 	}}); err != nil {
 		return nil, err
 	}
 	return i, nil
+}
+
+var (
+	symOnce sync.Once
+	symSet  interp.Exports
+)
+
+// symbols is the part of stdlib.Symbols that the generated programs import (a new interpreter per case
+// copies the table it is given: the full table costs a second per case under the race detector).
+func symbols() interp.Exports {
+	symOnce.Do(func() {
+		symSet = interp.Exports{}
+		for _, k := range []string{".", "fmt/fmt", "sync/sync", "sync/atomic/atomic", "sort/sort", "runtime/runtime", "time/time",
+			"strings/strings", "errors/errors", "os/os", "io/io", "math/math", "strconv/strconv", "context/context"} {
+			if v, ok := stdlib.Symbols[k]; ok {
+				symSet[k] = v
+			}
+		}
+	})
+	return symSet
 }
 
 // evalGuarded evaluates src under recover with a deadline.
